@@ -94,8 +94,7 @@ def run(ctx):
         "graphs (cycles of length 1-4 through inline fragments and fields, diamonds, side cycles), every (parent, "
         "type condition) pair, leaf/composite selections, introspection fields).  per_rule counts, per rule of "
         "section 5, the cases that violate it alone / with others / satisfy it (by the specification's vector).  "
-        "A disagreement is KNOWN only if the specification with the switch(es) of Exec/Known.v for listed classes "
-        "reproduces the implementation's verdict.  Documents beyond apollo's internal limits (xv_within_limits: "
+        "No known-finding class is left: every disagreement is a violation.  Documents beyond apollo's internal limits (xv_within_limits: "
         "fewer than 100 fragments and (fragments+1)*(deepest selection+1) <= 128, a conservative bound for the fragment chain limit 100 and "
         "FIELD_DEPTH_LIMIT 128) are outside the range and counted as outside_limits.  Inside modelrun the literal models "
         "of selection.rs (MergeXing.v) and fragment.rs (FragCycles.v) are compared with the specification's rules on "
